@@ -217,7 +217,7 @@ func ruleC03(c *Ctx) {
 					got[fld] = true
 				}
 				return false
-			}, 4, nil)
+			}, 9, nil) // deep enough for `for _, x := range []interface{}{h.A, h.B} { mustWriteForHash(w, x) }`
 		}
 		want := map[string]bool{}
 		if o := bcp.Types.Scope().Lookup(tn); o != nil {
